@@ -84,3 +84,52 @@ Unit(
     ],
     canary="inst is None",
 )
+
+
+@replay_for("model.resolve_one_step")
+def _replay_crossref_list_order(model, rec):
+    """End to end: a main file importing a library file; the library contains a reference whose
+    resolution is postponed by one step and that stands before a reference resolved earlier.  The
+    go-to-definition list of EVERY loaded model must be ordered by start, list each reference once,
+    and delimit exactly the reference text."""
+    import os
+    import shutil
+    import tempfile
+
+    import textx.scoping.providers as sp
+    from textx import get_children_of_type, get_model, metamodel_from_str
+
+    grammar = r"""
+    Model: imports*=Import structs*=Struct instances*=Instance accesses*=Access;
+    Import: 'import' importURI=STRING;
+    Struct: 'struct' name=ID '{' vals+=Val '}';
+    Val: 'val' name=ID;
+    Instance: 'instance' name=ID ':' type=[Struct];
+    Access: 'access' val=[Val] 'of' inst=[Instance];
+    """
+    lib = "\nstruct S { val x val y }\ninstance i : S\naccess y of i\naccess x of i\n"
+    main = '\nimport "lib.mdl"\nstruct T { val a }\ninstance j : T\ninstance k : S\naccess a of j\naccess y of k\n'
+    mm = metamodel_from_str(grammar, textx_tools_support=True)
+    mm.register_scope_providers({"*.*": sp.PlainNameImportURI(), "Access.val": sp.RelativeName("inst.type.vals")})
+    d = tempfile.mkdtemp(prefix="txvc-c34-")
+    bad = []
+    try:
+        open(os.path.join(d, "lib.mdl"), "w").write(lib)
+        open(os.path.join(d, "main.mdl"), "w").write(main)
+        mmodel = mm.model_from_file(os.path.join(d, "main.mdl"))
+        lmodel = get_model(mmodel.instances[1].type)
+        for label, mdl, text in (("main.mdl", mmodel, main), ("lib.mdl (imported)", lmodel, lib)):
+            lst = mdl._pos_crossref_list
+            starts = [r.ref_pos_start for r in lst]
+            nrefs = len(get_children_of_type("Instance", mdl)) + 2 * len(get_children_of_type("Access", mdl))
+            if starts != sorted(starts):
+                bad.append(f"{label}: _pos_crossref_list starts {starts} are not in ascending order")
+            if len(set(starts)) != len(starts) or len(lst) != nrefs:
+                bad.append(f"{label}: {len(lst)} entries ({len(set(starts))} distinct) for {nrefs} references")
+            for r in lst:
+                if text[r.ref_pos_start:r.ref_pos_end] != r.name:
+                    bad.append(f"{label}: entry for {r.name!r} delimits {text[r.ref_pos_start:r.ref_pos_end]!r}")
+    finally:
+        shutil.rmtree(d, ignore_errors=True)
+    return bool(bad), ("go-to-definition list on the real code:\n  " + "\n  ".join(bad)) if bad else \
+        "go-to-definition lists of the main and the imported model are ordered, complete and exact"
